@@ -28,6 +28,10 @@ STEP_BUDGET = 40_000
 CANARY_EXPR = "__import__('verif_canary').hit('{tag}')"
 CANARY_STMT = "import verif_canary; verif_canary.hit('{tag}')"
 # the same side effect dressed as other kinds of text a lenient parser might accept
+# text that tries to break out of the Python string literal the transpiler wraps a Vyxal string in
+BREAKOUT_SHAPES = ['\\");{c}#', '");{c}#', '\\\\");{c}#', '\\\\\\");{c}#', "');{c}#", '\\n");{c}#', '""");{c}#',
+                   '\\");\n{c}#']
+HOF_DYADS = ["M", "F", "R", "Z", "o", "ḟ", "ṡ", "ẇ", "Ẇ", "Ḟ", "İ", "Ẋ", "Þ↓", "Þ↑", "ÞZ", "ȯ", "r", "ẋ", "ḭ", "↔"]
 CANARY_SHAPES = [
     "{c}", "{c}", "({c})", " {c}", "1 if {c} else 0", "0+{c}", "2**{c}", "-3 + len(str({c}))", "3/4 if {c} else 1/4",
     "[{c}]", "[1, {c}]", "({c},)", "{{1: {c}}}", "f'{{{c}}}'", "(lambda: {c})()", "1.5*{c}", "7 and {c}", "0x10 + {c}",
@@ -45,12 +49,19 @@ class SimDictProxy:
     def __init__(self):
         self.d = {}
         self.events = []
+        self.dead = False  # the writer process has been killed: nothing it does afterwards reaches the manager
+
+    def freeze(self):
+        self.dead = True
 
     def __getitem__(self, k):
         self.events.append(("get", k, world.CLOCK.steps))
         return self.d[k]
 
     def __setitem__(self, k, v):
+        if self.dead:
+            self.events.append(("set-after-kill-ignored", k, world.CLOCK.steps))
+            return
         self.events.append(("set", k, world.CLOCK.steps))
         self.d[k] = v
 
@@ -72,7 +83,7 @@ class C19(core.Check):
     id = "C19"
     title = "Online mode contains the program: no host output, no evaluation of user text"
     tiers = {
-        "quick": dict(runs=6_000, batch=100, wall=85),
+        "quick": dict(runs=5_000, batch=100, wall=85),
         "thorough": dict(runs=150_000, batch=300, wall=840),
     }
     components_real = ["vyxal/main.py execute_vyxal (online and offline)", "vyxal/helpers.py vy_eval, get_input", "vyxal/"
@@ -227,8 +238,34 @@ class C19(core.Check):
             m_ = 3000
             flood = ["t", f"{total // m_ + 2} ( `x` {m_} * ₴ ) `end` ,"]
             nodes.insert(rw.randint(0, len(nodes)), flood)
+        if rw.random() < 0.35:
+            # a lambda that prints / evaluates, handed to a higher-order element (does the callee run it under the
+            # caller's context?)
+            body = rw.choice(["n ,", "n ₴", "`x` ,", "n ¨,", "›", "n …"])
+            if taint and rw.random() < 0.6:
+                body = rw.choice([f"`{can()}` E _ n", f"`{can('stmt')}` † n", f"`{can()}` E ,"])
+                uses_eval = True
+            h = rw.choice(HOF_DYADS)
+            lst = rw.choice(["⟨1|2|3⟩", "3ɾ", "⟨3|1|2⟩", "⟨⟨1|2⟩|⟨3⟩⟩", "2"])
+            tail = rw.choice(["", " W ,", " f ,", " ,", " L ,"])
+            nodes.insert(rw.randint(0, len(nodes)), ["t", f"{lst} λ {body} ; {h}{tail}"])
+        if taint and rw.random() < 0.3:
+            # string literals / exec payloads that try to close the generated Python string
+            brk = rw.choice(BREAKOUT_SHAPES).format(c=CANARY_EXPR.format(tag="brk"))
+            how = rw.choice(["lit", "lit,", "Ė", "?Ė"])
+            if how == "?Ė":
+                nodes.insert(rw.randint(0, len(nodes)), ["t", "? Ė"])
+                extra_input = "`" + brk + "`"
+            else:
+                extra_input = None
+                nodes.insert(rw.randint(0, len(nodes)), ["t", "`" + brk + "`" + {"lit": "", "lit,": " ,", "Ė": " Ė"}[how]])
+            uses_eval = True
+        else:
+            extra_input = None
         n_in = rw.choice([0, 0, 1, 2, 3])
         inputs = []
+        if extra_input is not None:
+            inputs.append(extra_input)
         for _ in range(n_in):
             x = rw.random()
             if taint and x < 0.6:
@@ -282,7 +319,15 @@ class C19(core.Check):
         old = (sys.stdout, sys.stderr)
         sys.stdout, sys.stderr = out, err
         outcome = "ok"
-        world.CLOCK.start(budget=STEP_BUDGET, kill_at=kill_at, count_string=True)
+        done_at_kill = [None]
+
+        def on_kill():
+            # SIGKILL semantics: the record and the count of completed prints are what they are at this instant;
+            # `finally` blocks that run while the simulated kill unwinds must not be able to add to them
+            rec.freeze()
+            done_at_kill[0] = self.prints_done
+
+        world.CLOCK.start(budget=STEP_BUDGET, kill_at=kill_at, count_string=True, on_kill=on_kill)
         try:
             with world.rec_limit():
                 if online:
@@ -308,7 +353,8 @@ class C19(core.Check):
             self.out = None
             f.target = None
         return dict(outcome=outcome, stdout=out.getvalue(), stderr=err.getvalue(), rec1=rec.d.get(1, ""),
-                    rec2=rec.d.get(2, ""), steps=steps, prints=self.prints_done, chunks=list(self.chunks),
+                    rec2=rec.d.get(2, ""), steps=steps,
+                    prints=(done_at_kill[0] if done_at_kill[0] is not None else self.prints_done), chunks=list(self.chunks),
                     hits=list(canary.HITS), compiles=list(canary.COMPILES), fired=f.fired, census=dict(f.census),
                     stdin_faults=dict(world.STDIN.faults), net_faults=dict(world.URLLIB.faults),
                     net_calls=len(world.URLLIB.calls))
